@@ -101,8 +101,11 @@ class C04(props.Prop):
             if rng.random() < 0.3:
                 text = text.rstrip('\n') + rng.choice([' foo', ' (assert', ' "abc'])
                 dmg.append('eof_tail')
-        if rng.random() < 0.05:
-            # nesting deeper than the interpreter's recursion limit
+        deep = False
+        if rng.random() < 0.05 and len(text) < 1500:
+            # nesting deeper than the interpreter's recursion limit (small
+            # scripts only: every candidate is rendered and tokenised in full)
+            deep = True
             text, k = gen_input.damage(rng, text, 'deep_nest')
             dmg.append(k)
             kind = 'damaged' if kind == 'wf' else kind
@@ -114,6 +117,18 @@ class C04(props.Prop):
                                   text=text)
         spec['input_kind'] = kind
         spec['damage'] = dmg
+        if rng.random() < 0.08:
+            # a command whose output is not valid UTF-8 (on the failing
+            # inputs, on the others, or on all of them)
+            for cn in rng.choice([['bug'], ['ok'], ['bug', 'ok', 'perr']]):
+                c = spec['model']['classes'].get(cn)
+                if c is not None:
+                    k = rng.choice(['out', 'err'])
+                    c[k] = c[k] + 'caf\udce9 \udcff\udcfe\n'
+            spec['raw_output'] = True
+        if deep:
+            spec['sched']['line_gap'] = None
+            spec['sched']['wall_cap'] = 4.0
         spec['launcher'] = 'bin' if rng.random() < 0.15 else 'main'
         scen = rng.choice(['none', 'none', 'usage', 'mutator', 'mutator',
                            'cand_io', 'interrupt', 'memerr', 'worker_exc'])
@@ -239,6 +254,15 @@ class C04(props.Prop):
             # reaches main() the run must end with a non-zero status
             interrupted = '[ddsmt] memory exhausted' in res.stdout or \
                 res.outcome == 'exception'
+        idle = props.max_idle_rounds(rec)
+        v.extra['max_idle_hier_rounds'] = props.retest_bucket(idle)
+        if idle > props.IDLE_ROUNDS_BOUND:
+            # evaluated for capped runs too: this is how a run that never
+            # completes looks from outside
+            v.violate('no-completion', 'C04:no-completion:endless-rounds',
+                      f'{idle} consecutive hierarchical rounds were generated '
+                      f'from the same input without any adoption (scenario '
+                      f'{scen}): the run does not complete')
         if res.outcome in ('hang', 'stepcap', 'wallcap', 'deadlock') or str(
                 res.outcome).startswith('harness'):
             v.aborted = res.outcome
